@@ -22,6 +22,25 @@ def describe(meta):
                                          [("test:" if f["test"] else "") + ",".join("%s/%s" % (c["ctx"], c["use"]) for c in f["conts"]) for f in meta["files"]])
 
 
+def aligned_program():
+    """Under go vet every package is analysed in a process of its own, so source positions of a dependency (which travel with its
+    facts) mean nothing in the importing package.  d declares 72 @testonly functions in blocks of 64 bytes, u declares 64 unannotated
+    callers in blocks of 65 bytes: whatever the offset between the two files, one caller's `func` keyword sits at the same byte offset
+    as a @testonly declaration of d.  Every caller is reported."""
+    d = "package d\n\n" + "".join("// TF%02d is a helper.\n// @testonly\nfunc TF%02d() int { return 0 }\n\n" % (i, i) for i in range(72))
+    head = 'package u\n\nimport "m/d"\n\n'
+    u = head
+    exp = set()
+    for j in range(64):
+        u += "// r%02d pads its block.......\n" % j
+        exp.add(("u/u.go", u.count("\n") + 1, "TONL02"))
+        u += "func r%02d() int { return d.TF%02d() }\n\n" % (j, j)
+    assert len(u) - len(head) == 64 * 65, len(u) - len(head)
+    prog = {"id": "C03_aligned", "pkgs": [{"path": "m/d", "name": "d", "files": [{"name": "d/d.go", "src": d}]},
+                                         {"path": "m/u", "name": "u", "files": [{"name": "u/u.go", "src": u}]}]}
+    return (prog, exp, {"pkg": "u", "ann": {"func": True}, "files": [{"test": False, "conts": [{"ctx": "plain", "use": "callF at every byte offset class of the dependency's declarations"}]}]})
+
+
 def run(ctx):
     return c01.run_family(
         ctx, "TestOnly", gen_tonl.build_tonl, {"TONL"}, cfg,
@@ -30,6 +49,7 @@ def run(ctx):
         devs=[("DedupByName", "seq2", ("Exact",)), ("MatchByName", "single", ("Exact",)), ("StopAtReportedCall", "single", ("Exact",)), ("ExportedOnly", "single", ("Exact",)), ("OnePerPosition", "single", ("Exact",)), ("ElidedSkipped", "single", ("Exact",)), ("GroupDocLeaks", "single", ("Exact",)),
               ("SkipMethodNamedLikeFunc", "single", ("Exact",))],
         describe=describe,
+        extra_real=[aligned_program()],
         cfgs=(None, {"scan_tests": "true"}),
         assumptions=["fragment: non-generic defined types, direct imports, one use per top-level declaration",
                      "methods declared on a @testonly type (receiver uses) are not generated; the signature of a @testonly function is exempt with its body",
